@@ -1,0 +1,63 @@
+//go:build verif
+
+// Contracts for the deductive verification in /verif (comment-only).
+package keeper
+
+// ---- C12: reward pool ----------------------------------------------------------
+// sumAmt(a, off, n): sum of the (big.Int) amounts of the first n grant requests.
+//@ smt (define-fun-rec grantSum ((a (Array Int Opt_T_types_goattypes_GrantRequest)) (off Int) (n Int)) Int
+//@       (ite (<= n 0) 0 (+ (grantSum a off (- n 1)) (ite ((_ is none_Opt_Int) (T_types_goattypes_GrantRequest.Amount (val_Opt_T_types_goattypes_GrantRequest (select a (+ off (- n 1)))))) 0 (val_Opt_Int (T_types_goattypes_GrantRequest.Amount (val_Opt_T_types_goattypes_GrantRequest (select a (+ off (- n 1))))))))))
+//@ smt (define-fun imin ((a Int) (b Int)) Int (ite (<= a b) a b))
+
+//@ func (Keeper).UpdateRewardPool
+//@ property C12
+//@ requires params: st.locking.Params.InitialBlockReward >= 1 && st.locking.Params.HalvingInterval >= 1
+//@ requires nonneg: st.locking.RewardPool.Goat >= 0 && st.locking.RewardPool.Gas >= 0 && st.locking.RewardPool.Remain >= 0
+//@ requires height: blockheight() >= 0
+//@ requires decoded: forall(j, 0, len(gas), gas[j] != nil && gas[j].Amount != nil) && forall(j, 0, len(grants), grants[j] != nil && grants[j].Amount != nil && *grants[j].Amount >= 0)
+//@ ensures one_gas: err == nil ==> len(gas) == 1
+//@ ensures emission: err == nil ==> st.locking.RewardPool.Goat - old(st.locking.RewardPool.Goat) ==
+//@           imin(old(st.locking.RewardPool.Remain) + grantSum(arr(grants), off(grants), len(grants)), st.locking.Params.InitialBlockReward / ipow2(blockheight() / st.locking.Params.HalvingInterval))
+//@ ensures conserve: err == nil ==> st.locking.RewardPool.Goat + st.locking.RewardPool.Remain == old(st.locking.RewardPool.Goat) + old(st.locking.RewardPool.Remain) + grantSum(arr(grants), off(grants), len(grants))
+//@ ensures gas: err == nil ==> st.locking.RewardPool.Gas == old(st.locking.RewardPool.Gas) + ite(*gas[0].Amount > 0, *gas[0].Amount, 0)
+//@ ensures nonneg: err == nil ==> st.locking.RewardPool.Goat >= 0 && st.locking.RewardPool.Gas >= 0 && st.locking.RewardPool.Remain >= 0
+//@ loop 0 invariant -1 <= rangeindex && rangeindex < len(gas) && pool.Goat == old(st.locking.RewardPool.Goat) && pool.Remain == old(st.locking.RewardPool.Remain)
+//@ loop 0 invariant pool.Gas == old(st.locking.RewardPool.Gas) + ite(rangeindex >= 0 && *gas[0].Amount > 0, *gas[0].Amount, 0)
+//@ loop 1 invariant -1 <= rangeindex && rangeindex < len(grants) && pool.Goat == old(st.locking.RewardPool.Goat)
+//@ loop 1 invariant pool.Remain == old(st.locking.RewardPool.Remain) + grantSum(arr(grants), off(grants), rangeindex + 1)
+//@ loop 1 invariant pool.Remain >= 0
+//@ modifies st.locking.RewardPool
+
+// ---- C12: claim pays the accrued amounts once and resets them ---------------------
+
+//@ func (Keeper).Claim
+//@ property C12 C06
+//@ requires decoded: forall(j, 0, len(reqs), reqs[j] != nil)
+//@ ensures queued: err == nil ==> len(st.locking.EthTxQueue.Rewards) == old(len(st.locking.EthTxQueue.Rewards)) + len(reqs)
+//@ ensures fifo: err == nil ==> forall(j, 0, old(len(st.locking.EthTxQueue.Rewards)), st.locking.EthTxQueue.Rewards[j] == old(st.locking.EthTxQueue.Rewards[j]))
+//@ ensures zeroed: err == nil ==> forall(j, 0, len(reqs), st.locking.Validators[reqs[j].Validator].Reward == 0 && st.locking.Validators[reqs[j].Validator].GasReward == 0)
+//@ loop 0 invariant idx: -1 <= rangeindex && rangeindex < len(reqs)
+//@ loop 0 invariant len: len(queue.Rewards) == old(len(st.locking.EthTxQueue.Rewards)) + rangeindex + 1
+//@ loop 0 invariant fifo: forall(j, 0, old(len(st.locking.EthTxQueue.Rewards)), queue.Rewards[j] == old(st.locking.EthTxQueue.Rewards[j]))
+//@ loop 0 invariant zeroed: forall(j, 0, rangeindex + 1, st.locking.Validators[reqs[j].Validator].Reward == 0 && st.locking.Validators[reqs[j].Validator].GasReward == 0)
+//@ modifies st.locking.Validators, st.locking.EthTxQueue
+
+// ---- C12: distribution shares the pools in proportion to voting power, keeping only rounding dust ----
+// powsum(a, off, n): total voting power of the first n vote records
+//@ smt (define-fun-rec powsum ((a (Array Int T_abci_types_VoteInfo)) (off Int) (n Int)) Int
+//@       (ite (<= n 0) 0 (+ (powsum a off (- n 1)) (T_abci_types_Validator.Power (T_abci_types_VoteInfo.Validator (select a (+ off (- n 1))))))))
+
+//@ func (Keeper).DistributeReward
+//@ property C12
+//@ requires nonneg: st.locking.RewardPool.Goat >= 0 && st.locking.RewardPool.Gas >= 0
+//@ requires powers: forall(j, 0, len(voteinfos()), voteinfos()[j].Validator.Power >= 0)
+//@ requires powerbound: forall(j, 0, len(voteinfos()) + 1, 0 <= powsum(arr(voteinfos()), off(voteinfos()), j) && powsum(arr(voteinfos()), off(voteinfos()), j) <= 1152921504606846975)
+//@ ensures pool_nonneg: err == nil ==> st.locking.RewardPool.Goat >= 0 && st.locking.RewardPool.Gas >= 0
+//@ ensures pool_shrinks: err == nil ==> st.locking.RewardPool.Goat <= old(st.locking.RewardPool.Goat) && st.locking.RewardPool.Gas <= old(st.locking.RewardPool.Gas)
+//@ ensures remain_untouched: err == nil ==> st.locking.RewardPool.Remain == old(st.locking.RewardPool.Remain)
+//@ loop 0 invariant -1 <= rangeindex && rangeindex < len(voteinfos())
+//@ loop 0 invariant totalPower == powsum(arr(voteinfos()), off(voteinfos()), rangeindex + 1)
+//@ loop 1 invariant idx: -1 <= rangeindex && rangeindex < len(voteinfos())
+//@ loop 1 invariant goat_share: totalPower * (pool.Goat - *remainReward) <= pool.Goat * powsum(arr(voteinfos()), off(voteinfos()), rangeindex + 1) && *remainReward <= pool.Goat
+//@ loop 1 invariant gas_share: totalPower * (pool.Gas - *remainGas) <= pool.Gas * powsum(arr(voteinfos()), off(voteinfos()), rangeindex + 1) && *remainGas <= pool.Gas
+//@ modifies st.locking.RewardPool, st.locking.Validators
